@@ -51,6 +51,8 @@ func main() {
 		runC11(*out, *seed, *tier)
 	case "C09":
 		runC09(*out, *seed, *tier)
+	case "C13":
+		runC13(*out, *seed, *tier)
 	case "C10":
 		runC10(*out, *seed, *tier)
 	case "C04":
